@@ -367,6 +367,21 @@ func RunC08(env *Env, rep *Report) {
 	for _, b := range bodies {
 		cases = append(cases, c08Case([]string{"inline", "table:i,p", "inline"}, b), c08Case([]string{"table:i,i", "table:p,i"}, b))
 	}
+	// plain entries / plain rows whose target is spelled exactly like the
+	// generated label of an inline entry / inline row of the same statement
+	{
+		fix := func(a *Atom, v string) { a.Fixed = &v }
+		cs := c08Case([]string{"plain", "inline", "table:p,i"}, "cmd")
+		ms := cs.Prog.Tops[0].(*MapScriptsTop)
+		fix(ms.Name, "MyMap")
+		fix(ms.Entries[0].Type, "TYPE_A")
+		fix(ms.Entries[1].Type, "TYPE_B")
+		fix(ms.Entries[2].Type, "TYPE_C")
+		fix(ms.Entries[0].Label, "MyMap_TYPE_B")
+		fix(ms.Entries[2].Rows[0].Label, "MyMap_TYPE_C_1")
+		cs.Name = "c08/targets-spelled-like-generated-labels"
+		cases = append(cases, cs)
+	}
 	// a table with 12 rows (row indices of two digits), inline and plain
 	cases = append(cases, c08Case([]string{"table:i,i,i,i,i,i,i,i,i,i,i,i"}, "cmd"), c08Case([]string{"table:p,i,p,p,p,p,p,p,p,p,i,i"}, "cmd"))
 	// operators in a row's var / value expression ('%' among them)
